@@ -48,6 +48,8 @@ def definition(draw, files=True, lists=True, outs=True, spaces=1, append_files=T
     dirs = draw(st.lists(st.sampled_from(pool), min_size=1, max_size=4, unique=True))
     if use_space and not any(" " in d for d in dirs):
         dirs[-1] = draw(st.sampled_from([d for d in SPACE_DIRS if d not in dirs]))
+    if draw(st.integers(0, 5)) == 0:
+        dirs[0] = "@cache"  # some inputs live directly in the cache root
     nd = len(dirs)
     kinds = ["flag", "str", "int"] + (["file", "file"] if files else []) + (
         ["files"] if files and lists else [])
@@ -138,8 +140,9 @@ def file_path(dirs, v) -> Path:
     return dirs[v["dir"]] / v["name"]
 
 
-def materialise(spec, base: Path, name="EnvT") -> Built:
-    """Create directories/files under `base` and the task class for `spec`."""
+def materialise(spec, base: Path, name="EnvT", special=None) -> Built:
+    """Create directories/files under `base` and the task class for `spec`.  `special` maps
+    reserved directory tokens (e.g. "@cache" = the cache root itself) to absolute paths."""
     from fileformats.generic import File
     from pydra.compose import shell
     from pydra.utils.typing import MultiInputObj
@@ -147,7 +150,7 @@ def materialise(spec, base: Path, name="EnvT") -> Built:
     base = Path(base)
     dirs = []
     for d in spec["dirs"]:
-        p = base / d
+        p = Path((special or {}).get(d, base / d))
         p.mkdir(parents=True, exist_ok=True)
         dirs.append(p)
 
